@@ -72,7 +72,12 @@ def main():
         old = json.load(open(path))
     old.update(res)
     json.dump(dict(sorted(old.items())), open(path, "w"), indent=1)
-    missed = [s for s, r in res.items() if not r.get("detected_by")]
+    def superseded(sid):
+        try:
+            return bool(json.load(open(f"{SEED_DIR}/{sid}/meta.json")).get("superseded"))
+        except Exception:
+            return False
+    missed = [s for s, r in res.items() if not r.get("detected_by") and not superseded(s)]
     print(f"{len(res) - len(missed)}/{len(res)} detected; missed: {missed}")
 
 
